@@ -581,6 +581,7 @@ class HelperSequences(Suite):
 SHARED_SRC = """
 import random
 from taskchain import Task, Parameter
+from taskchain.chain import ChainObject
 from taskchain.parameter import AutoParameterObject
 
 class Sampler(AutoParameterObject):       # the object carries state: a seeded generator
@@ -597,6 +598,15 @@ class Counter(AutoParameterObject):       # the object counts its uses
     def pick(self, items, count):
         self._n += 1
         return [self._n] + items[:count]
+
+class Probe(ChainObject, AutoParameterObject):     # told about the chain, it looks at it right away
+    def __init__(self, k=1):
+        self.k = k
+        self._first = 'not initialised'
+    def init_chain(self, chain):
+        self._first = chain['pool'].value[0] if 'pool' in chain else 'no pool in the chain'
+    def pick(self, items, count):
+        return [self._first] + items[:count]
 
 class Pool(Task):
     def run(self) -> list:
@@ -623,7 +633,8 @@ class SharedParameters(Suite):
         import itertools
         return [dict(obj=o, helpers=list(hs), count=c) for o in ('Sampler', 'Counter') for c in (None, 3)
                 for hs in (('create_test_task', 'create_test_task'), ('TestChain', 'TestChain', 'create_test_task'),
-                           ('create_test_task', 'TestChain'), ('TestChain',) * 3)]
+                           ('create_test_task', 'TestChain'), ('TestChain',) * 3)] + \
+               [dict(obj='Probe', helpers=list(hs), count=2) for hs in (('create_test_task',), ('TestChain', 'create_test_task'), ('create_test_task',) * 3)]
 
     def run_impl(self, case):
         import copy, sys, types
@@ -637,6 +648,21 @@ class SharedParameters(Suite):
             exec(compile(SHARED_SRC, name, 'exec'), m.__dict__)
             for c in (m.Pool, m.Sample, m.Sampler, m.Counter):
                 c.__module__ = name
+            if case['obj'] == 'Probe':
+                # one live object that takes part in the chain, handed to helpers whose mocked input differs
+                probe = m.Probe()
+                got, want = [], []
+                real = Config(Path(tmp) / 'real', name='real', data={'tasks': [m.Pool, m.Sample], 'sampler': m.Probe(), 'count': 2}).chain()
+                for i, h in enumerate(case['helpers']):
+                    pool = list(range(10 * i, 10 * i + 5))
+                    params = {'sampler': probe, 'count': case['count']}
+                    if h == 'create_test_task':
+                        t = create_test_task(m.Sample, input_tasks={m.Pool: pool}, parameters=params)
+                    else:
+                        t = TestChain([m.Sample], mock_tasks={'pool': pool}, parameters=params)['sample']
+                    got.append(t.value)
+                    want.append([pool[0]] + pool[:case['count']])
+                return dict(reals=[real['sample'].value, [0, 0, 1]], got=got, want=want, same_dict=True, now='')
             definition = {'class': f'{name}.{case["obj"]}', 'kwargs': {'seed': 42} if case['obj'] == 'Sampler' else {'start': 7}}
             params = {'sampler': definition}
             if case['count'] is not None:
@@ -666,6 +692,11 @@ class SharedParameters(Suite):
         if obs['reals'][0] != obs['reals'][1]:
             return None       # the real chain is not repeatable here: nothing to compare with
         for i, (h, v) in enumerate(zip(case['helpers'], obs['got'])):
+            if 'want' in obs:
+                if v != obs['want'][i]:
+                    return (f'{case}: helper {i} ({h}) yields {v}; with the input it was given, an object that reads the chain when it is '
+                            f'told about it makes the task yield {obs["want"][i]} (the real chain: {obs["reals"][0]})')
+                continue
             if v != obs['reals'][0]:
                 return (f'{case}: use {i} of the shared parameters ({h}) yields {v}; a real chain built from the same dict '
                         f'yields {obs["reals"][0]} every time (earlier helpers: {case["helpers"][:i]})')
